@@ -61,6 +61,18 @@ def _split_pieces(fn: ast.FunctionDef) -> set[str]:
     return out
 
 
+def _piece_order(fn: ast.FunctionDef) -> list[str]:
+    """[first-byte-pos piece, last-byte-pos piece] from `a, b = x.split('-')`"""
+    for n in ast.walk(fn):
+        if isinstance(n, ast.Assign) and isinstance(n.value, ast.Call) \
+                and isinstance(n.value.func, ast.Attribute) and n.value.func.attr in ('split', 'rsplit') \
+                and n.value.args and isinstance(n.value.args[0], ast.Constant) and n.value.args[0].value == '-':
+            for t in n.targets:
+                if isinstance(t, ast.Tuple) and len(t.elts) == 2 and all(isinstance(e, ast.Name) for e in t.elts):
+                    return [e.id for e in t.elts]
+    return []
+
+
 def _cr_fstring(node: ast.AST, templates: dict | None = None):
     """find the Content-Range f-string in a statement: ('range', [names]) / ('star', [name]);
     a field that is a local holding a template itself is spliced in"""
@@ -106,10 +118,39 @@ def analyse_function(rep: Report) -> tuple[str, str]:
     def hook(call: ast.Call, s: Zone, dom: ZoneDomain):
         if dotted(call.func) == 'int' and call.args and isinstance(call.args[0], ast.Name) \
                 and call.args[0].id in pieces:
-            return AVal(None, 0, INF, True)
+            # the number a piece spells is a value of its own: `#int:<piece>` (>= 0, see the axiom)
+            return AVal(f'#int:{call.args[0].id}', 0, 0, True)
         return None
 
-    zd = ZoneDomain(call_hook=hook)
+    class RangeDomain(ZoneDomain):
+        """+ which pieces of the header are known to be empty / non-empty on the path"""
+
+        def assume(self, test, s, truth):
+            t = test
+            neg = False
+            while isinstance(t, ast.UnaryOp) and isinstance(t.op, ast.Not):
+                t, neg = t.operand, not neg
+            name = None
+            empty_when_true = None
+            if isinstance(t, ast.Name) and t.id in pieces:
+                name, empty_when_true = t.id, False
+            elif isinstance(t, ast.Compare) and len(t.ops) == 1 and isinstance(t.left, ast.Name) \
+                    and t.left.id in pieces and isinstance(t.comparators[0], ast.Constant) \
+                    and t.comparators[0].value == '':
+                if isinstance(t.ops[0], ast.Eq):
+                    name, empty_when_true = t.left.id, True
+                elif isinstance(t.ops[0], ast.NotEq):
+                    name, empty_when_true = t.left.id, False
+            if name is not None:
+                is_empty = empty_when_true == (truth != neg)
+                have_e, have_n = f'empty:{name}' in s.facts, f'nonempty:{name}' in s.facts
+                if (is_empty and have_n) or (not is_empty and have_e):
+                    return None
+                s.facts.add(f'empty:{name}' if is_empty else f'nonempty:{name}')
+                return s
+            return super().assume(test, s, truth)
+
+    zd = RangeDomain(call_hook=hook)
     dom = Disjunctive(zd)
 
     def on_stmt(st: ast.stmt, s: Zone) -> None:
@@ -181,6 +222,18 @@ def analyse_function(rep: Report) -> tuple[str, str]:
                 (f'end <= {L} - 1', e_end, ast.BinOp(left=ast.Name(id=L, ctx=ast.Load()),
                                                      op=ast.Sub(), right=ast.Constant(value=1))),
             ]
+            # the range served is the range asked for: first-byte-pos as given, last-byte-pos never beyond
+            # the one given (clamping to the resource only ever lowers it)
+            order = _piece_order(fn)
+            if len(order) == 2:
+                p_first, p_last = order
+                if f'nonempty:{p_first}' in s.facts:
+                    g = ast.Name(id=f'#int:{p_first}', ctx=ast.Load())
+                    obligations.append((f'start == int({p_first})', e_start, g))
+                    obligations.append((f'int({p_first}) <= start', g, e_start))
+                    if f'nonempty:{p_last}' in s.facts:
+                        obligations.append((f'end <= int({p_last})', e_end,
+                                            ast.Name(id=f'#int:{p_last}', ctx=ast.Load())))
             for label, a, b in obligations:
                 key = f'206:{label}'
                 if proves_le(zd, s, a, b):
@@ -228,6 +281,9 @@ def analyse_function(rep: Report) -> tuple[str, str]:
     init = Zone()
     init.add(ZERO, L, 0)
     init.ints.add(L)
+    for p_ in pieces:
+        init.add(ZERO, f'#int:{p_}', 0)
+        init.ints.add(f'#int:{p_}')
     Flow(dom, on_stmt=each(on_stmt), on_exit=each_exit(on_exit)).run(fn, [init])
     if exits['206'] == 0 or exits['416'] == 0 or exits['200'] == 0:
         raise AnalysisError(f'get_http_range: expected 200, 206 and 416 exits, found {exits}')
